@@ -182,7 +182,7 @@ class Chooser:
         self.replay = rng is None
         self.rng = rng
         self.policy = policy or {"kind": "uniform"}
-        self.schedule_in: List[Any] = [_tup(e) for e in (schedule or [])]
+        self.schedule_in: List[Any] = expand_schedule(schedule or [])
         self._consumed = [False] * len(self.schedule_in)
         self._first_unconsumed = 0
         self.faults_in = {_tup(f) for f in (faults or [])}
@@ -280,6 +280,26 @@ class Chooser:
         self.fault_counts[kind] = self.fault_counts.get(kind, 0) + n
 
 
+def expand_schedule(sched: list) -> List[Any]:
+    """Stored form: run-length encoded entries ``[count, *event]``."""
+    out: List[Any] = []
+    for e in sched:
+        n, ev = int(e[0]), _tup(e[1:])
+        out.extend([ev] * n)
+    return out
+
+
+def compress_schedule(events: list) -> List[list]:
+    out: List[list] = []
+    for ev in events:
+        ev = list(ev)
+        if out and out[-1][1:] == ev:
+            out[-1][0] += 1
+        else:
+            out.append([1, *ev])
+    return out
+
+
 def _group(ev: Any) -> Any:
     """Group of an event identity: its second element if present (thread / task layer), else the event."""
     if isinstance(ev, tuple) and len(ev) >= 2:
@@ -347,7 +367,7 @@ def execute_replay(engine: Any, record: dict) -> Outcome:
 
 def with_schedule(record: dict, out: Outcome) -> dict:
     r = copy.deepcopy(record)
-    r["schedule"] = jsonable(out.schedule)
+    r["schedule"] = jsonable(compress_schedule(out.schedule))
     r["faults"] = jsonable(out.faults)
     return r
 
@@ -378,15 +398,34 @@ def generic_schedule_candidates(record: dict) -> Iterable[dict]:
             for i in range(0, n, k):
                 c = copy.deepcopy(record)
                 del c["schedule"][i : i + k]
+                c["schedule"] = _remerge(c["schedule"])
                 yield c
             if k == 1:
                 break
             k //= 2
+        for i in range(n):
+            cnt = sched[i][0]
+            for nc in sorted({1, cnt // 2, cnt - 1}):
+                if 1 <= nc < cnt:
+                    c = copy.deepcopy(record)
+                    c["schedule"][i][0] = nc
+                    yield c
         for i in range(n - 1):
-            if _lt(sched[i + 1], sched[i]):
+            if _lt(sched[i + 1][1:], sched[i][1:]):
                 c = copy.deepcopy(record)
                 c["schedule"][i], c["schedule"][i + 1] = c["schedule"][i + 1], c["schedule"][i]
+                c["schedule"] = _remerge(c["schedule"])
                 yield c
+
+
+def _remerge(sched: list) -> list:
+    out: List[list] = []
+    for e in sched:
+        if out and out[-1][1:] == e[1:]:
+            out[-1][0] += e[0]
+        else:
+            out.append(list(e))
+    return out
 
 
 def _lt(a: Any, b: Any) -> bool:
@@ -400,7 +439,7 @@ def record_size(record: dict) -> Tuple[int, int, str]:
     """Measure minimised by the shrinker: (length of the JSON text, schedule inversions,
     the text itself as a deterministic tie-break)."""
     sched = record.get("schedule") or []
-    inv = sum(1 for i in range(len(sched) - 1) if _lt(sched[i + 1], sched[i]))
+    inv = sum(1 for i in range(len(sched) - 1) if _lt(sched[i + 1][1:], sched[i][1:]))
     txt = json.dumps(record, sort_keys=True, default=repr)
     return (len(txt), inv, txt)
 
@@ -678,7 +717,7 @@ def finish(prop: str, tier: str, base_seed: int, merged: dict, engine: Any, shri
 
     exit_code = EXIT_OK
     replay_paths = []
-    for key, entry in reports[:5]:
+    for key, entry in reports[:8]:
         # confirm in replay mode first: the recorded schedule must reproduce the violation
         try:
             out0 = execute_replay(engine, entry["record"])
